@@ -139,10 +139,10 @@ func vhSwapStep(mode int, maxIn, maxOut, rProofs, rPending, rSigs int) {
 		}
 	} else {
 		v.Reach("swap-rejected")
-		if mode&vhC01 != 0 {
+		if mode&(vhC01|vhC02) != 0 {
 			for i := range out {
 				v.Assert(v.ZEq(v.SqlCount(raw, "blind_signatures", "b_", out[i].B_), sigBefore[i]),
-					"C01 swap rejected (e.g. by the unique key, the last line of defence) => no signature was stored for its outputs")
+					"C01/C02 swap rejected (e.g. by the unique key, the last line of defence) => no signature was stored for its outputs (nothing issued, nothing restorable)")
 			}
 		}
 		if mode&vhC06 != 0 {
